@@ -77,6 +77,12 @@ def run_lines(cmd, ops, timeout=1200, shell=False, max_crashes=20):
         got = got[: len(ops) - start]
         out += got
         start += len(got)
+        if start < len(ops) and got and got[-1].startswith("HANG"):
+            crashes += 1          # the executor gave up on an operation that did not return and exited: go on after it
+            if crashes > max_crashes:
+                out += ["CRASH (not run)"] * (len(ops) - start)
+                break
+            continue
         if start < len(ops):
             out.append("CRASH rc=%s %s" % (rc, se[:200].replace("\n", " | ")))
             start += 1
